@@ -10,3 +10,10 @@ pub assume_specification[ usize::next_multiple_of ](x: usize, m: usize) -> (r: u
 /// `usize::from(bool)`: vstd accepts the call but leaves the result uninterpreted
 pub assume_specification[ <usize as From<bool>>::from ](b: bool) -> (r: usize)
     ensures r == (if b { 1usize } else { 0usize });
+/// `u64::rotate_left` / `rotate_right`: bit rotations, left uninterpreted (a total function of its arguments)
+pub uninterp spec fn vt_rotl64(x: u64, n: u32) -> u64;
+pub uninterp spec fn vt_rotr64(x: u64, n: u32) -> u64;
+pub assume_specification[ u64::rotate_left ](x: u64, n: u32) -> (r: u64)
+    ensures r == vt_rotl64(x, n);
+pub assume_specification[ u64::rotate_right ](x: u64, n: u32) -> (r: u64)
+    ensures r == vt_rotr64(x, n);
